@@ -933,6 +933,11 @@ def run(ctx):
     obs += wave8_rules(ctx)
     obs += wave9_rules(ctx)
     obs += wave10_rules(ctx)
+    # wave 11: what the group prints is the template it holds: every map of the group (a cache included) is merged or dropped by
+    # import_group like by add_tmpl (shared with C20.order/import)
+    from share import relabel
+    from rules.c20 import order_rules
+    obs += relabel(order_rules(ctx), "C20.order/import", "C14.group/import")
     n = sum(1 for o in obs if o["key"].startswith("C14.children/"))
     if n < 44:
         obs.append(ctx.ob("C14.floor/children", False, "stringify/expr.rs", "only %d variants analysed (floor 44)" % n))
